@@ -17,6 +17,7 @@ type State struct {
 	ghost  map[string]*Term
 	alloc  *Term
 	ret    []*Term // return values (flow == Return)
+	noAssume int     // >0 while a specification expression is evaluated: reading must not add facts
 	tmpl   *tmplInfo // non-nil: template state used to define a spec function (heap reads become parameters)
 }
 
@@ -44,7 +45,7 @@ func (st *State) clone() *State {
 func (st *State) guard() *Term { return mkAnd(st.guards...) }
 
 func (st *State) assume(t *Term) {
-	if t == nil || isLit(t, "true") {
+	if t == nil || isLit(t, "true") || st.noAssume > 0 {
 		return
 	}
 	st.pc = append(st.pc, mkImplies(st.guard(), t))
@@ -153,6 +154,16 @@ func (c *FnCtx) oblige(st *State, kind string, site ast.Node, sub, detail string
 	}
 	// an equivalence (possibly under universal quantifiers) is proved as two implications: the two directions need
 	// different instantiations and solvers are far more robust on them separately
+	// a conjunction is proved conjunct by conjunct (each may use the ones before it)
+	if goal.Op == "and" && len(goal.Args) > 1 {
+		save := len(st.pc)
+		for _, g := range goal.Args {
+			c.oblige(st, kind, site, sub, detail, g)
+			st.pc = append(st.pc, g)
+		}
+		st.pc = st.pc[:save]
+		return
+	}
 	if a, b, ok := splitIff(goal); ok {
 		c.oblige1(st, kind, site, sub, detail+"   [direction ==>]", a)
 		c.oblige1(st, kind, site, sub, detail+"   [direction <==]", b)
